@@ -193,10 +193,12 @@ def impl_routing(mods, ops):
         srv.secnode.add_module(obj, m)
         modobjs[m] = obj
     conns = {}
+    every = []          # all connection objects ever made (a disconnected one must stay silent: keep watching it)
 
     def conn(c):
         if c not in conns:
             conns[c] = Conn(c)
+            every.append(conns[c])
             srv.dispatcher.add_connection(conns[c])
         return conns[c]
 
@@ -212,12 +214,12 @@ def impl_routing(mods, ops):
                 outs.append('error')
         elif kind == 'emit':
             _, m, lvl = op
-            for cn in conns.values():
+            for cn in every:
                 cn.got.clear()
             if m in modobjs:
                 modobjs[m].log.log(lvl, 'text %d', lvl)
             got = []
-            for cn in conns.values():
+            for cn in every:
                 for msg in cn.got:
                     if msg[0] == 'log' and msg[1].split(':')[0] == m:
                         got.append(cn.cid)
@@ -233,7 +235,7 @@ def impl_routing(mods, ops):
         elif kind == 'disconnect':
             try:
                 srv.dispatcher.remove_connection(conn(op[1]))
-                conns.pop(op[1], None)
+                conns.pop(op[1], None)      # the same id later means a new connection object
                 outs.append('ok')
             except Exception:
                 outs.append('error')
@@ -276,6 +278,11 @@ def gen_routing(rng, big):
             ops.append(['ident', c])
         else:
             ops.append(['disconnect', c])
+    # closing probes: one record per module at the highest and the lowest level shows every subscription still alive
+    for m in mods:
+        ops.append(['emit', m, 40])
+        if rng.random() < 0.5:
+            ops.append(['emit', m, 10])
     return mods, ops
 
 
